@@ -7,7 +7,7 @@ use std::collections::BTreeMap;
 use std::time::Instant;
 
 pub trait Scenario: Sync {
-    type Op: Clone + Send;
+    type Op: Clone + Send + Sync;
     fn tag(&self) -> &'static str;
     fn generate(&self, seed: u64) -> Vec<Self::Op>;
     fn execute(&self, ops: &[Self::Op], verbose: bool) -> Outcome;
@@ -20,6 +20,43 @@ pub trait Scenario: Sync {
     fn faults(&self, _ops: &[Self::Op]) -> Vec<(String, u64)> {
         Vec::new()
     }
+}
+
+/// Runs of one worker are executed in chunks of this many on one fresh thread.
+pub const CHUNK: u64 = 64;
+
+fn on_fresh_thread<T: Send>(f: impl FnOnce() -> T + Send) -> T {
+    if cfg!(miri) {
+        // thread creation is slow there and every lite run is its own process
+        return f();
+    }
+    std::thread::scope(|sc| {
+        std::thread::Builder::new()
+            .stack_size(4 << 20)
+            .spawn_scoped(sc, f)
+            .expect("cannot spawn a run thread")
+            .join()
+            .unwrap_or_else(|e| std::panic::resume_unwind(e))
+    })
+}
+
+/// Execute operation lists one after the other on a **fresh thread** and
+/// return the outcome of the last one.  Nothing the library keeps per thread
+/// (a `thread_local!` cache, a scratch buffer) can then come from anywhere but
+/// the `prelude` lists: a shrink evaluation and a replay start from the same
+/// per-thread state, whatever ran before and however many workers there are.
+pub fn hermetic_seq<S: Scenario>(scn: &S, prelude: &[Vec<S::Op>], ops: &[S::Op], verbose: bool) -> Outcome {
+    on_fresh_thread(|| {
+        for p in prelude {
+            let _ = scn.execute(p, false);
+        }
+        scn.execute(ops, verbose)
+    })
+}
+
+/// One operation list on a fresh thread.
+pub fn hermetic<S: Scenario>(scn: &S, ops: &[S::Op], verbose: bool) -> Outcome {
+    hermetic_seq(scn, &[], ops, verbose)
 }
 
 pub struct FoundViolation {
@@ -98,8 +135,20 @@ pub fn run_batch<S: Scenario>(
                     first_nontrivial: Vec::new(),
                     classes: std::collections::BTreeSet::new(),
                 };
-                let mut i = start + w as u64;
-                while i < start + count {
+                // Runs are executed in chunks of CHUNK on one fresh thread each: a
+                // chunk starts from clean per-thread library state, so a violation
+                // that needs state left behind by earlier runs is reproducible from
+                // the runs of its own chunk (see the violation handling below).
+                let mut next = start + w as u64;
+                while next < start + count {
+                  let chunk_first = next;
+                  let pr = &mut p;
+                  next = on_fresh_thread(move || {
+                   let p = pr;
+                   let mut i = chunk_first;
+                   let mut in_chunk = 0u64;
+                   while i < start + count && in_chunk < CHUNK {
+                    in_chunk += 1;
                     let seed = run_seed(master_seed, scn.tag(), i);
                     let ops = scn.generate(seed);
                     let out = scn.execute(&ops, false);
@@ -128,6 +177,9 @@ pub fn run_batch<S: Scenario>(
                         }
                     }
                     i += workers as u64;
+                   }
+                   i
+                  });
                 }
                 p
             }));
@@ -218,7 +270,7 @@ pub fn run_batch<S: Scenario>(
     for i in sample_runs {
         let seed = run_seed(master_seed, scn.tag(), i);
         let ops = scn.generate(seed);
-        let out = scn.execute(&ops, true);
+        let out = hermetic(scn, &ops, true);
         let mut lines: Vec<J> = out.lines.iter().take(12).map(|l| J::Str(abridge_str(l, 200))).collect();
         if out.lines.len() > 12 {
             lines.push(J::Str(format!("... ({} more log lines)", out.lines.len() - 12)));
@@ -250,9 +302,39 @@ pub fn run_batch<S: Scenario>(
             let seed = run_seed(master_seed, scn.tag(), *i);
             let ops = scn.generate(seed);
             let before = ops.len();
+            // Does the run fail on its own, from clean per-thread state?  If not,
+            // it needs what earlier runs of its chunk left behind in the library:
+            // those runs become the replay's prelude (then reduced to the ones
+            // that matter).
+            let mut prelude: Vec<Vec<S::Op>> = Vec::new();
+            let mut reproducible = true;
+            if !fails(scn, &[], &ops, v.check, &v.sig, false) {
+                let w = (*i - start) % workers as u64;
+                let j = (*i - start - w) / workers as u64;
+                let j0 = (j / CHUNK) * CHUNK;
+                for jj in j0..j {
+                    let idx = start + w + jj * workers as u64;
+                    prelude.push(scn.generate(run_seed(master_seed, scn.tag(), idx)));
+                }
+                if !fails(scn, &prelude, &ops, v.check, &v.sig, false) {
+                    reproducible = false;
+                    prelude.clear();
+                } else {
+                    let mut k = 0;
+                    while k < prelude.len() {
+                        let mut cand = prelude.clone();
+                        cand.remove(k);
+                        if fails(scn, &cand, &ops, v.check, &v.sig, false) {
+                            prelude = cand;
+                        } else {
+                            k += 1;
+                        }
+                    }
+                }
+            }
             let (min_ops, evals) =
-                if do_shrink { shrink(scn, ops, v.check, &v.sig, 20_000) } else { (ops, 0) };
-            let out = scn.execute(&min_ops, true);
+                if do_shrink && reproducible { shrink(scn, &prelude, ops, v.check, &v.sig, 20_000) } else { (ops, 0) };
+            let out = hermetic_seq(scn, &prelude, &min_ops, true);
             let mv = out
                 .violations
                 .iter()
@@ -269,8 +351,8 @@ pub fn run_batch<S: Scenario>(
                 i,
                 crate::core::fnv64_of(v.sig.as_bytes()) as u32
             );
-            let doc = replay_doc(scn, &min_ops, &mv, config, master_seed, *i, seed, &out);
-            let wrote = std::fs::create_dir_all(replay_dir).is_ok() && std::fs::write(&path, doc.to_string()).is_ok();
+            let doc = replay_doc(scn, &prelude, &min_ops, &mv, config, master_seed, *i, seed, &out);
+            let wrote = reproducible && std::fs::create_dir_all(replay_dir).is_ok() && std::fs::write(&path, doc.to_string()).is_ok();
             res.violations.push(FoundViolation {
                 run: *i,
                 run_seed: seed,
@@ -317,6 +399,7 @@ pub fn abridge(j: J) -> J {
 
 pub fn replay_doc<S: Scenario>(
     scn: &S,
+    prelude: &[Vec<S::Op>],
     ops: &[S::Op],
     v: &Violation,
     config: &str,
@@ -339,14 +422,17 @@ pub fn replay_doc<S: Scenario>(
         ("run_seed", J::u(run_seed)),
         ("digest", J::Str(format!("{:016x}", out.digest_std))),
         ("no_ff", J::Bool(crate::gen::NO_FF.load(std::sync::atomic::Ordering::Relaxed))),
+        // operation lists executed first on the same fresh thread (only when the
+        // violation needs per-thread state that earlier runs left in the library)
+        ("prelude", J::Arr(prelude.iter().map(|l| J::Arr(l.iter().map(|o| scn.op_to_json(o)).collect())).collect())),
         ("ops", J::Arr(ops.iter().map(|o| scn.op_to_json(o)).collect())),
         ("faults", J::Arr(scn.faults(ops).into_iter().map(|(k, n)| J::obj(vec![("kind", J::Str(k)), ("count", J::u(n))])).collect())),
         ("log", J::Arr(out.lines.iter().map(|l| J::Str(abridge_str(l, 400))).collect())),
     ])
 }
 
-fn fails<S: Scenario>(scn: &S, ops: &[S::Op], check: &str, sig: &str, strict_sig: bool) -> bool {
-    let out = scn.execute(ops, false);
+fn fails<S: Scenario>(scn: &S, prelude: &[Vec<S::Op>], ops: &[S::Op], check: &str, sig: &str, strict_sig: bool) -> bool {
+    let out = hermetic_seq(scn, prelude, ops, false);
     out.violations.iter().any(|v| v.check == check && (!strict_sig || v.sig == sig))
 }
 
@@ -354,6 +440,7 @@ fn fails<S: Scenario>(scn: &S, ops: &[S::Op], check: &str, sig: &str, strict_sig
 /// signature class) as the failure criterion.
 pub fn shrink<S: Scenario>(
     scn: &S,
+    prelude: &[Vec<S::Op>],
     mut ops: Vec<S::Op>,
     check: &str,
     sig: &str,
@@ -377,7 +464,7 @@ pub fn shrink<S: Scenario>(
                 cand.extend_from_slice(&ops[..i]);
                 cand.extend_from_slice(&ops[end..]);
                 evals += 1;
-                if !cand.is_empty() && fails(scn, &cand, check, sig, true) {
+                if !cand.is_empty() && fails(scn, prelude, &cand, check, sig, true) {
                     ops = cand;
                     changed = true;
                 } else {
@@ -404,7 +491,7 @@ pub fn shrink<S: Scenario>(
                     let mut cand = ops.clone();
                     cand[i] = cand_op;
                     evals += 1;
-                    if fails(scn, &cand, check, sig, true) {
+                    if fails(scn, prelude, &cand, check, sig, true) {
                         ops = cand;
                         progressed = true;
                         changed = true;
@@ -427,8 +514,20 @@ pub fn replay<S: Scenario>(scn: &S, doc: &J) -> Result<(bool, J), String> {
     for o in doc.ga("ops")? {
         ops.push(scn.op_from_json(o)?);
     }
+    let mut prelude: Vec<Vec<S::Op>> = Vec::new();
+    if let Some(J::Arr(lists)) = doc.get("prelude") {
+        for l in lists {
+            let mut v = Vec::new();
+            if let J::Arr(items) = l {
+                for o in items {
+                    v.push(scn.op_from_json(o)?);
+                }
+            }
+            prelude.push(v);
+        }
+    }
     let check = doc.gs("check")?.to_string();
-    let out = scn.execute(&ops, true);
+    let out = hermetic_seq(scn, &prelude, &ops, true);
     let hit = out.violations.iter().find(|v| v.check == check).cloned();
     let rep = J::obj(vec![
         ("check", J::Str(check)),
